@@ -3,11 +3,11 @@
 
     Anchors (pinned /repo):
       cohdl/_core/_collect_ast_and_scope.py  FunctionDefinition.bind_args   (l.520-606)
-      cohdl/_compiler/frontend/_prepare_ast.py  ast.Call handler           (l.1965-2002: the
-            keyword arguments, `**` expansions flattened, are collected in ONE python dict by
-            item assignment in source order)
-      cohdl/_compiler/frontend/_prepare_ast.py  ast.BinOp overloaded_operator (l.1150-1172),
-            ast.Compare evaluate (l.1252-1273), ast.BoolOp (l.1094-1138), ast.Not (l.1227)
+      cohdl/_compiler/frontend/_prepare_ast.py  ast.Call handler: the keyword arguments, `**`
+            expansions flattened, are collected in ONE python dict in source order, with
+            `assert name not in kwarg_expr` before every insertion (fix bf02a0d)
+      cohdl/_compiler/frontend/_prepare_ast.py  ast.BinOp overloaded_operator, ast.Compare
+            evaluate (both as of fix b791a08), ast.BoolOp, ast.Not
 
     Everything is a small total function over N / list / option; stdlib only. *)
 From Coq Require Import NArith List Bool.
@@ -81,17 +81,15 @@ Definition nmem (k : name) (l : list name) : bool := existsb (N.eqb k) l.
 Definition kwdel (k : name) (kw : list (name * value)) : list (name * value) :=
   filter (fun p => negb (N.eqb (fst p) k)) kw.
 
-(** `d[k] = v` : overwrite keeps the position of the first insertion *)
-Fixpoint kwset (k : name) (v : value) (kw : list (name * value)) : list (name * value) :=
-  match kw with
-  | [] => [(k, v)]
-  | (k', v') :: r => if N.eqb k' k then (k', v) :: r else (k', v') :: kwset k v r
+(** the ast.Call handler: `for kwarg in inp.keywords: ... assert name not in kwarg_expr;
+    kwarg_expr[name] = ...` - [None] = the assertion fires *)
+Fixpoint build_kw_acc (kws d : list (name * value)) : option (list (name * value)) :=
+  match kws with
+  | [] => Some d
+  | (k, v) :: r => if kwmem k d then None else build_kw_acc r (d ++ [(k, v)])
   end.
 
-(** the ast.Call handler: `for kwarg in inp.keywords: ... kwarg_expr[name] = ...`
-    - no test whether the key is already present *)
-Definition merge_kw (kws : list (name * value)) : list (name * value) :=
-  fold_left (fun d kv => kwset (fst kv) (snd kv) d) kws [].
+Definition build_kw (kws : list (name * value)) : option (list (name * value)) := build_kw_acc kws [].
 
 Fixpoint has_dup (l : list name) : bool :=
   match l with
@@ -348,7 +346,10 @@ Definition bind_args (s : sig) (pos : list value) (kw : list (name * value)) : o
 
 (** what the tracer does with a call expression: build the kwargs dict, then bind *)
 Definition tracer_bind (s : sig) (c : call) : option binding :=
-  bind_args s (c_pos c) (merge_kw (c_kws c)).
+  match build_kw (c_kws c) with
+  | None => None
+  | Some kw => bind_args s (c_pos c) kw
+  end.
 
 (** ** the object of zero-argument super()
 
@@ -511,10 +512,42 @@ Definition or_else (a : option dres) (b : option dres) : option dres :=
 
 Definition or_reject (a : option dres) : dres := match a with Some r => r | None => DReject end.
 
-(** the tracer, ast.BinOp: `if hasattr(type_lhs, op): call; if not NotImplemented: return`
-    then `getattr(type_rhs, rop)` (AttributeError if absent), assert not NotImplemented *)
+(** the tracer, ast.BinOp `overloaded_operator` (as of fix b791a08):
+    try_call = hasattr + subcall, None on a missing method or NotImplemented;
+    `reflected_first` = not same type and issubclass(type_rhs, type_lhs) and hasattr(type_rhs, rop)
+       and (not hasattr(type_lhs, rop) or the two attributes are different objects);
+    order = [rhs.rop, lhs.op] | [lhs.op] (same type) | [lhs.op, rhs.rop]; first success, else
+    AssertionError *)
+Definition attempt := (cls * meth * cls)%type.      (* class providing the method, method, class of the other operand *)
+
+Definition has_attr (T : ctable) (c : cls) (m : meth) : bool :=
+  match lookup T c m with Some _ => true | None => false end.
+
+Definition same_attr (T : ctable) (c d : cls) (m : meth) : bool :=
+  match lookup T c m, lookup T d m with
+  | Some (x, _), Some (y, _) => N.eqb x y
+  | _, _ => false
+  end.
+
+Definition reflected_first (T : ctable) (l r : cls) (rop : meth) : bool :=
+  negb (N.eqb l r) && is_subclass_f T (S (length T)) r l && has_attr T r rop
+  && (negb (has_attr T l rop) || negb (same_attr T r l rop)).
+
+Fixpoint first_call (T : ctable) (order : list attempt) : dres :=
+  match order with
+  | [] => DReject
+  | (c, m, o) :: rest =>
+      match try_call (lookup T c m) m o with
+      | Some x => x
+      | None => first_call T rest
+      end
+  end.
+
 Definition tracer_binop (T : ctable) (l r : cls) (op rop : meth) : dres :=
-  or_reject (or_else (try_call (lookup T l op) op r) (try_call (lookup T r rop) rop l)).
+  first_call T
+    (if reflected_first T l r rop then [(r, rop, l); (l, op, r)]
+     else if N.eqb l r then [(l, op, r)]
+     else [(l, op, r); (r, rop, l)]).
 
 (** CPython (Objects/abstract.c binary_op1 + typeobject.c SLOT1BINFULL):
     - operands of the same type: the reflected method is not tried;
@@ -540,16 +573,32 @@ Definition cpython_binop (T : ctable) (l r : cls) (op rop : meth) : dres :=
   else if binop_priority T l r rop then or_reject (or_else rev fwd)
   else or_reject (or_else fwd rev).
 
-(** the tracer, ast.Compare `evaluate(normal, reverse)`: `getattr(type_lhs, normal)` is called
-    through subcall: a class without its own definition yields object's slot wrapper, which is
-    whitelisted as an intrinsic only for __eq__/__ne__ (it answers NotImplemented) - for the
-    orderings the assertion "not supported in synthesizable contexts" fires.  On NotImplemented
-    rhs.reverse is called the same way; assert not NotImplemented.
+(** the tracer, ast.Compare `evaluate(normal, reverse)` (as of fix b791a08):
+    attempts = [lhs.normal, rhs.reverse], reversed if type_rhs is a proper subclass of type_lhs;
+    each attempt is `subcall(getattr(type, name), ...)`: a class without its own definition yields
+    object's slot wrapper, which is whitelisted as an intrinsic only for __eq__/__ne__ (it answers
+    NotImplemented) - for the orderings the assertion "not supported in synthesizable contexts"
+    fires (an over-rejection).  Second attempt only on NotImplemented; assert not NotImplemented.
     (`!=` is not modelled: object.__ne__ delegates to __eq__.) *)
+Inductive cres := CAbort | CNotImpl | CValue (d : dres).
+
+Definition compare_attempt (T : ctable) (is_eq : bool) (a : attempt) : cres :=
+  let '(c, m, o) := a in
+  match lookup T c m with
+  | None => if is_eq then CNotImpl else CAbort
+  | Some (d, md) => if nmem o (m_ni md) then CNotImpl else CValue (DCall d m)
+  end.
+
 Definition tracer_compare (T : ctable) (l r : cls) (op rop : meth) (is_eq : bool) : dres :=
-  match lookup T l op with
-  | None => if is_eq then or_reject (try_call (lookup T r rop) rop l) else DReject
-  | Some _ => or_reject (or_else (try_call (lookup T l op) op r) (try_call (lookup T r rop) rop l))
+  let '(a0, a1) := if proper_subclass T r l then ((r, rop, l), (l, op, r)) else ((l, op, r), (r, rop, l)) in
+  match compare_attempt T is_eq a0 with
+  | CAbort => DReject
+  | CValue x => x
+  | CNotImpl =>
+      match compare_attempt T is_eq a1 with
+      | CValue x => x
+      | _ => DReject
+      end
   end.
 
 (** CPython do_richcompare: rhs type a proper subclass of lhs type: reflected first;
